@@ -181,7 +181,7 @@ func TestGenerated(t *testing.T) {
 			// named function types of call sites (Noise.FnAlias) are definitions of their own
 			fnAliases := 0
 			for _, l := range strings.Split(x, "\n") {
-				if strings.HasPrefix(l, "%$fn") || strings.HasPrefix(l, `%"$fn`) || strings.HasPrefix(l, "%$v") || strings.HasPrefix(l, `%"$v`) { // and named vector types (Noise.VecAlias)
+				if strings.HasPrefix(l, "%$fn") || strings.HasPrefix(l, `%"$fn`) || strings.HasPrefix(l, "%$v") || strings.HasPrefix(l, `%"$v`) || strings.HasPrefix(l, "%$w") || strings.HasPrefix(l, `%"$w`) { // and named vector types (Noise.VecAlias)
 					fnAliases++
 				}
 			}
